@@ -25,6 +25,7 @@ type c11Row struct {
 	Excl    [][]string     `json:"excl"`
 	Legal   bool           `json:"legal"`
 	Amb     bool           `json:"amb"`
+	Carries bool           `json:"carries"`
 	Tree    map[string]any `json:"tree"`
 	Members []string       `json:"members"`
 	Valid   bool           `json:"valid"`
@@ -167,10 +168,6 @@ func runC11(rowsFile string, b *hc.Builder) {
 		}
 		switch row.Kind {
 		case "patch":
-			if row.Amb {
-				stats["patches_unspecified"]++
-				continue
-			}
 			stats["patches"]++
 			typ := registry[row.Schema+"_PartialUpdate"]
 			var dirs []string
@@ -182,10 +179,19 @@ func runC11(rowsFile string, b *hc.Builder) {
 			cs := map[string]any{"schema": row.Schema, "patch": row.Patch, "excluded": dirs, "legal": row.Legal}
 			ptr := reflect.New(typ)
 			buildPatch(b, ptr.Elem(), row.Patch)
+			// $set of a whole record whose type has an excluded sub-field: what an ENCODER does with it is left open (refuse, or
+			// drop the sub-field); a DECODER sees a document, and the document is illegal iff it carries the sub-field
+			legalDoc := row.Legal
+			if row.Amb {
+				stats["patches_encode_unspecified"]++
+				legalDoc = row.Legal && !row.Carries
+			}
 			// encode
 			w := restlicodec.NewCompactJsonWriterWithExcludedFields(spec)
 			err, pan := safely(func() error { return ptr.Interface().(restlicodec.Marshaler).MarshalRestLi(w) })
-			if pan != "" {
+			if row.Amb {
+				// (nothing to say about the encoder here)
+			} else if pan != "" {
 				violation("C11/patch/encode-panic/"+feat, pan, cs)
 			} else if (err != nil) == row.Legal {
 				if row.Legal {
@@ -207,7 +213,7 @@ func runC11(rowsFile string, b *hc.Builder) {
 			// decode the equivalent document
 			doc := refJSON(b, row.Tree, 0)
 			if row.Schema == "Ent" {
-				c11ServerProbe(dirs, doc, row.Legal, feat, cs, stats)
+				c11ServerProbe(dirs, doc, legalDoc, feat, cs, stats)
 			}
 			r, err := restlicodec.NewJsonReaderWithExcludedFields([]byte(doc), spec, 1)
 			if err != nil {
@@ -217,13 +223,13 @@ func runC11(rowsFile string, b *hc.Builder) {
 			err, pan = safely(func() error { return back.Interface().(restlicodec.Unmarshaler).UnmarshalRestLi(r) })
 			if pan != "" {
 				violation("C11/patch/decode-panic/"+feat, pan, cs)
-			} else if (err != nil) == row.Legal {
-				if row.Legal {
+			} else if (err != nil) == legalDoc {
+				if legalDoc {
 					violation("C11/patch/legal-rejected-on-decode/"+feat, "a legal partial update document is rejected: "+err.Error()+"  doc: "+clip(doc), cs)
 				} else {
 					violation("C11/patch/illegal-accepted-on-decode/"+feat, "an illegal partial update document is accepted: "+clip(doc), cs)
 				}
-			} else if row.Legal {
+			} else if legalDoc && !row.Amb {
 				if d := diffPatch(b, back.Elem(), row.Patch, row.Schema); d != "" {
 					violation("C11/patch/roundtrip/"+feat, "decoded partial update differs: "+d+"  doc: "+clip(doc), cs)
 				}
